@@ -6,6 +6,7 @@ import O2P.Lemmas.PostFlat
 import O2P.Lemmas.InferOrAll
 import O2P.Lemmas.MissingAndAll
 import O2P.Lemmas.FilterDefunctAll
+import O2P.Lemmas.Bridge
 /-!
 # C06 — gate inference explains all observed successor sets; exact without mixed OR
 The quantifier of C06 is finite and is enumerated by `domain`: `domain_counts` (kernel-checked) gives
@@ -202,6 +203,16 @@ theorem post_process_sound (F : List (List String)) (hF : ∀ s0 ∈ F, "" ∉ s
   have g2 := (filter_good F hF 200).1 _ (g1.nd hnd)
   have g3 := missingAnd_good F hF hFnd 50 _ (g2.nd (g1.nd hnd)) o ho
   exact ((g1.trans g2).trans g3).pos s hne ⟨s, hs, fun _ _ => Iff.rfl⟩ hraw
+
+/-- **… in the judge's semantics**: if moreover the outcome holds no silent leaf (`noTau`; then it is a gate tree `g`),
+the executable judge that decides every tree a check sees — `admits`, through `outcomes` and `family` — admits the
+observed set.  (`Lemmas/Bridge.lean`: `sem_admits`, by mutual induction over `X`, `+`, `O` nodes: picks from the
+children's outcome families are outcomes of the product, selections are non-empty sub-lists.) -/
+theorem post_process_admits (F : List (List String)) (hF : ∀ s0 ∈ F, "" ∉ s0) (hFnd : ∀ s0 ∈ F, s0.Nodup)
+    (t : PTree) (hw : wfT false t = true) (hnd : (NE t.labels).Nodup) (o : PTree) (ho : o ∈ postProcess F t)
+    (hno : noTau o = true) (g : Gate) (hg : o.toGate = some g)
+    (s : List String) (hs : s ∈ F) (hne : s ≠ []) (hraw : t.sem s) : admits g s = true :=
+  sem_admits o g hno hg s (post_process_sound F hF hFnd t hw hnd o ho s hs hne hraw)
 
 /-- … and the defunct-OR filter alone, for any tree with distinct names -/
 theorem filter_defunct_sound (F : List (List String)) (hF : ∀ s0 ∈ F, "" ∉ s0) (fuel : Nat) (t : PTree)
